@@ -128,6 +128,7 @@ type FnV struct {
 	noOblige int // >0: suppress obligations (e.g. evaluating assumed ensures)
 	tsubstStack []map[*types.TypeParam]types.Type
 	wrap bool
+	fround bool // float64 operations carry a relative rounding error (floats rounded)
 	wrapUnsigned bool
 	noF2I bool
 	noName bool
